@@ -459,3 +459,7 @@ CHECKS = [
     Check("invalid", judge_invalid, strategy=strat_invalid, quick=60, thorough=300,
           rule="invalid arguments raise LenaTypeError/LenaValueError."),
 ]
+
+
+from .. import covfuzz  # noqa
+CHECKS.append(covfuzz.check(CHECKS, "harness.props.c03", "run_schedule", quick=3000, thorough=100000))
